@@ -32,6 +32,7 @@ type PipeGenOpts struct {
 	FillToMax   bool // some datagrams are padded to within 40 octets of max-udp-size
 	SmallUDP    bool // max-udp-size may be small
 	BadHeaders  bool // datagrams whose header must be rejected (wrong version, too short)
+	SockLoss    bool // tiny socket receive queue: bursts lose datagrams before the collector reads them
 	Dyn         bool // dynamic workers: load peak, long idle period (scale-down), then traffic again
 	Hostile     bool // add hostile exporters (structurally hostile and byte-corrupted datagrams) and liveness probes
 }
@@ -95,6 +96,11 @@ func baseCfg(r *rand.Rand, protos []string, o *PipeGenOpts) NodeCfg {
 	c.CapMQ = 1000
 	c.CapMirror = 1000
 	c.SockQueue = 4096
+	if o.SockLoss {
+		// a receive queue of a few datagrams: bursts overflow it and the
+		// datagrams that do not fit are lost before the collector sees them
+		c.SockQueue = 1 + r.Intn(6)
+	}
 	c.PoolPolicy = r.Intn(4)
 	c.Poison = true
 	if o.Stalls && r.Intn(2) == 0 {
@@ -306,6 +312,47 @@ func genPipePlan(seed int64, o PipeGenOpts) *PipePlan {
 								}
 							}
 						}
+						if o.Reannounce && ph == nPhases-1 && pending == nil && r.Intn(4) == 0 && used < 700 {
+							// the exporter replaces a template by a definition that describes
+							// empty records (no fields, or fields of length zero) and keeps
+							// sending data sets under that id: they must yield nothing - the
+							// superseded definition must not be applied to them
+							ti := r.Intn(len(fe.tpls))
+							old := fe.tpls[ti]
+							if ml := fe.g.MinRecLen(&old); ml > 0 && ml < 200 {
+								nt := model.Template{ID: old.ID}
+								switch r.Intn(3) {
+								case 0: // no fields at all
+								case 1: // the same elements, every length zero
+									for _, f := range old.AllFields() {
+										f.Len = 0
+										nt.Fields = append(nt.Fields, f)
+									}
+								default: // an options template with zero-length scope and option
+									nt.Options = true
+									f := old.AllFields()[0]
+									f.Len = 0
+									nt.Scope, nt.Fields = []model.FieldSpec{f}, []model.FieldSpec{f}
+								}
+								d0, _ := fe.g.DataSet(&old, 1+r.Intn(3), 300)
+								body := model.EncodeRecords(&old, d0.Recs, mp == "ipfix")
+								saved := m.Sets
+								m.Sets = append(append([]model.Set(nil), saved...), fe.g.TemplateSets([]model.Template{nt})...)
+								m.Sets = append(m.Sets, model.Set{Kind: model.SetRaw, RawID: old.ID, RawBody: body})
+								if enc, _ := m.Encode(func(id uint16) *model.Template {
+									for k := range fe.tpls {
+										if fe.tpls[k].ID == id {
+											return &fe.tpls[k]
+										}
+									}
+									return nil
+								}); len(enc) > p.Cfg.udpSize(proto)-20 {
+									m.Sets = saved
+								} else {
+									fe.tpls[ti] = nt
+								}
+							}
+						}
 						if len(m.Sets) == 0 {
 							continue
 						}
@@ -385,6 +432,7 @@ func genPipePlan(seed int64, o PipeGenOpts) *PipePlan {
 		// channel) after 16 idle cycles. Phase 1 is moved onto the sampling
 		// instants as bursts, the last phase far behind the scale-down.
 		p.Cfg.DynWorkers = true
+		p.Cfg.SockQueue = 4096
 		p.Cfg.CapUDP = 1000
 		p.Cfg.KeepBias = 950 // long uninterrupted stretches: bursts pile up in the queue before the sampler looks
 		p.Cfg.StallProb = 0
